@@ -35,6 +35,8 @@ type Runner struct {
 	ev    Ev
 	// two-session family marker: violations are also tagged C03
 	TagC03 bool
+	// lastRefused: the last event was a request the model refuses (error answer owed)
+	lastRefused bool
 	// FamTags: properties the family is about; state-level oracles (view,
 	// probe, inapplicable, teardown, registry) are tagged with them too.
 	FamTags  []string
@@ -92,8 +94,11 @@ func (r *Runner) tags(oracle string) []string {
 	case "inapplicable", "view", "probe":
 		add("C01")
 		add(r.FamTags...)
+		if r.lastRefused {
+			add("C04")
+		}
 	case "id":
-		add("C10", "C05")
+		add("C10", "C05", "C04") // C04: a response carrying a reissued id is not the outcome the protocol defines
 	case "closure":
 		add("C04", "C08")
 	case "teardown":
@@ -256,6 +261,20 @@ func (r *Runner) Do(ev Ev) {
 		wire = &hagallpb.EntityDeleteRequest{Type: hagallpb.MsgType_MSG_TYPE_ENTITY_DELETE_REQUEST, Timestamp: tsp, RequestId: x.rid, EntityId: eid}
 	case "pose":
 		eid = m.EntityID(c, ev.X, ev.Raw)
+		if ev.Y == 1 {
+			// the pose the entity has (or, an update pending, will have): the value is repeated
+			val = 0
+			if c.Sess != nil {
+				for _, e := range c.Sess.Entities {
+					if e.ID == eid && e.Live && e.Pose.Set {
+						val = int(e.Pose.PX)
+					}
+				}
+			}
+			if p := c.Pending[fmt.Sprintf("p:%d", eid)]; p != nil {
+				val = int(p.Pose.PX)
+			}
+		}
 		wire = &hagallpb.EntityUpdatePose{Type: hagallpb.MsgType_MSG_TYPE_ENTITY_UPDATE_POSE, Timestamp: tsp, EntityId: eid, Pose: &hagallpb.Pose{Px: float32(val)}}
 	case "custom":
 		wire = r.buildCustom(c, ev, tsp, val)
@@ -356,6 +375,17 @@ func (r *Runner) Do(ev Ev) {
 		x.mayClose[c.Idx] = true
 	default:
 		r.doSession(c, ev, x, eid, tid, val)
+	}
+
+	// a refused request (the requester is owed an error answer) must leave the
+	// state unchanged: what the probe finds afterwards is evidence for C04 too
+	r.lastRefused = false
+	if ev.C >= 0 && ev.C < len(x.exp) && x.rid != 0 {
+		for _, e := range x.exp[ev.C] {
+			if len(e.Codes) > 0 && e.Msg.RID == x.rid && e.Msg.Type == 0 {
+				r.lastRefused = true
+			}
+		}
 	}
 
 	// ---- compare ----
